@@ -42,7 +42,15 @@ def ob_mailbox(ctx, res):
     iff = c.parent
     while iff is not None and iff.k != "if":
         iff = iff.parent
-    if iff is None or not up(strip(iff["cond"])).endswith(".is_some()") or "panic" not in up(iff["then"]):
+    okonce = iff is not None and up(strip(iff["cond"])).endswith(".is_some()") and "panic" in up(iff["then"])
+    if not okonce:
+        mac = c.parent
+        while mac is not None and isinstance(mac, Node) and mac.k != "macro":
+            mac = mac.parent
+        if mac is not None and mac["path"] in ("assert", "assert_eq") and "args" in mac and mac["args"]:
+            a0 = up(strip(mac["args"][0])).replace(" ", "")
+            okonce = a0.endswith(".is_none()") or (mac["path"] == "assert_eq" and "None" in up(mac))
+    if not okonce:
         res.fail("mailbox/switch-once", c, "`switch` must panic when a destination was already stored (a second switch would lose a file)")
         return
     if fn.params[1][1] not in ("R",):
@@ -286,6 +294,14 @@ def ob_writer_drop(ctx, res):
 def _wait_then_poll(fn):
     """`while closed.is_none() { closed = cvar.wait(closed).unwrap(); }` precedes the mailbox poll"""
     ws = [n for n in walk_no_nested_fn(fn.body) if n.k == "while" and up(strip(n["cond"])).endswith(".is_none()")]
+    if not ws:
+        # `cvar.wait_while(lock.lock().unwrap(), |state| state.is_none())`: the same wait, by the library
+        ww = [c for c in calls(fn.body, method="wait_while") if len(c["args"]) == 2 and ".lock()" in up(c["args"][0])]
+        if len(ww) == 1:
+            cl = strip(ww[0]["args"][1])
+            if cl.k == "closure" and len(cl["inputs"]) == 1 and re.fullmatch(r"\{?%s\.is_none\(\)\}?" % re.escape(up(cl["inputs"][0]).replace("&", "").replace("mut ", "")), up(strip(cl["body"])).replace("*", "")):
+                return ww[0], None
+            return None, "wait_while must wait while the published state is None; predicate is `%s`" % up(cl)[:60]
     if len(ws) != 1:
         return None, "expected one `while closed.is_none()` wait loop"
     w = ws[0]
@@ -441,7 +457,7 @@ def handover_loops(ctx, res, sites):
     task owning it (`.await` on its handle / block_on), an explicit drop of the writer, or the readiness-poll idiom
     `while !buf.is_real_file_ready() { yield }`."""
     for file, name in sites:
-        fn = ctx.ast.fn(file, name)
+        fn = ctx.ast.fn(file, name, inline=True)
         sw = sorted([c for c in calls(fn.body, method="switch")], key=lambda c: c.order)
         aw = sorted([c for c in calls(fn.body, method="await_real_file")], key=lambda c: c.order)
         if not sw or not aw:
